@@ -549,6 +549,8 @@ class Interp:
                         self.event("stream_data_read", (obj, o.attrs[name]), node)
                     return self.simp(o.attrs[name])
                 cv = self.class_attr(o.cls, name)
+                if isinstance(cv, Op) and cv.op == "staticfn":
+                    return cv.args[0]               # name = staticmethod(function) in the class body
                 if cv is not None:
                     if isinstance(cv, FuncV):
                         if "staticmethod" in cv.info.deco:
@@ -879,6 +881,12 @@ class _ExprMixin:
             same = a.args[1] == b.args[1]        # members of one enumeration are singletons
             return Const(same if op in ("is", "eq") else not same)
         a, b = self.int_enum_value(a), self.int_enum_value(b)
+        if op in ("is", "isnot") and (a == NONE or b == NONE):
+            other = b if a == NONE else a
+            if isinstance(other, (FuncV, ClassV, Ref)) or (isinstance(other, Op) and other.op in (
+                    "sliceobj", "structobj", "partial", "namedtuple", "bound", "staticfn", "lambda", "itemgetter", "attrgetter",
+                    "methodcaller", "enum", "re.compile", "call:re.compile")):
+                return Const(op == "isnot")       # an object that exists is not None
         if op in ("eq", "ne"):
             # sequences of known length compare element by element
             sa_, sb_ = self.seq_elems(a), self.seq_elems(b)
@@ -1274,7 +1282,14 @@ class _CallMixin:
         kwargs = {}
         for k in n.keywords:
             if k.arg is None:
-                kwargs["**"] = self.ev(k.value)
+                kv_ = self.simp(self.ev(k.value))
+                do_ = self.heap.get(kv_.oid) if isinstance(kv_, Ref) else None
+                if isinstance(do_, DictObj) and do_.concrete() and all(is_const(k_, str) for k_, _, _, _ in do_.entries):
+                    # f(**{'a': x, 'b': y}) with a known dictionary: ordinary keyword arguments
+                    for k_, v_, _, _ in self.dedup(do_):
+                        kwargs[k_.v] = v_
+                else:
+                    kwargs["**"] = kv_
             else:
                 kwargs[k.arg] = self.ev(k.value)
         # method call?
@@ -1620,6 +1635,8 @@ class _CallMixin:
             pos0 = [a for a in f.args[1:] if not (isinstance(a, Op) and a.op == "kv")]
             kw0.update(kwargs)
             return self.call_value(f.args[0], pos0 + list(args), kw0, node)
+        if isinstance(f, Op) and f.op == "staticfn":
+            return self.call_value(f.args[0], args, kwargs, node)
         if isinstance(f, Op) and f.op.startswith("attr:") and len(f.args) == 1:
             # a method taken as a value from an object the analysis keeps symbolic (match = RE.match; match(line)):
             # calling it is calling the method
@@ -2729,7 +2746,7 @@ class _LoopMixin:
                 val = ite(once, subst(finals[w], first), init[w])
             elif w in closed and closed[w] == Const(0):
                 val = init[w]
-            elif w in closed:
+            elif w in closed and not may_exit_early:
                 val = add(init[w], mul(n, closed[w]))
             else:
                 val = Sym("lo%d:%s" % (L.lid, self.loc_name(w)), "loopout", (L.lid, w))
@@ -3563,6 +3580,10 @@ class _ExtMixin:
 
     def x_operator_attrgetter(self, a, k, n):
         return Op("attrgetter", *a)
+
+    def x_staticmethod(self, a, k, n):
+        # staticmethod(f) / classmethod(f) used as plain calls (alias = staticmethod(module_function)): the function itself
+        return Op("staticfn", a[0]) if len(a) == 1 and isinstance(self.simp(a[0]), FuncV) else None
 
     def x_operator_getitem(self, a, k, n):
         if len(a) == 2:
